@@ -79,6 +79,19 @@ Theorem C04_costs_far_below_f64_max : forall eqT P (fs : list (frag NumZ)) (lws 
   forall j i c, nth_error minima j = Some (i, c) -> (0 <= c < 2^300)%Z.
 Proof. intros eqT P fs lws H1 H2 H3 H4 minima. exact (smawk_minima_usize P fs lws H1 H2 H3 H4 eqT minima). Qed.
 
+(* refill never fails either (audit) *)
+From TW Require Import AuditFacts.
+Theorem C04_refill :
+  forall (cw : Chars.char -> BinNums.N) (alnum : Chars.char -> bool)
+           (lbc custom_sp : Chars.str -> list BinNums.N)
+           (ofit : OptFit.penalties -> list Word.word -> list BinNums.N -> option (list (list Word.word)))
+           (o : Wrap.options) (t : Chars.str),
+         Pipeline.OfitOK ofit ->
+         Pipeline.SplitterOK custom_sp ->
+         exists r : Chars.str, Refill.refill cw alnum lbc custom_sp ofit o t = Some r.
+Proof. exact (@refill_total). Qed.
+
+Print Assumptions C04_refill.
 Print Assumptions C04_costs_far_below_f64_max.
 Print Assumptions C04_smawk_total.
 Print Assumptions C04_wrap_fill_smawk.
